@@ -116,8 +116,8 @@ CHECKS.update({
 })
 CHECKS.update({
  "C10": dict(engine="llsym", cat="model_checking", design="4/C10",
-   technique="symbolic execution of src/complex.c + inline complex.h (emitted via LIBA_COMPLEX_C) in the all-fallback and the libm-bound configuration, a_real as z3 Real, libm calls as fresh reals with sign/range/monotonicity/parity contracts; nlsat decides field identities, inverse pairs, constant relations and ISO C Annex G sign/range tables per quadrant",
-   text="Partial by design. Decided: field arithmetic incl. all real/imaginary-scalar and in-place forms and the inverse pairs (mul/div by the same number or scalar, inv(inv z), z*inv z); relations between the math.h constants; for the configuration with every A_HAVE_C* undefined (never compiled by the test suite): principal-value sign/range tables of csqrt, clog, catan, catanh per open quadrant, casinh/cacosh against the Annex G table of casin/cacos taken as a contract, the real-argument variants, reciprocal families = inv o f, log2/log10 = log / ln b; for the casin/cacos fallback bodies (complex switches off, real ones on): on every path the argument handed to asin/acos/atan/log/log1p equals the defining expression of the principal value (B = |Re z|/A, tan(asin B), A(-1)+sqrt(A^2-1)) and the quadrant fix-up is right; for the libm-bound configuration: argument/result plumbing of 14 wrappers. NOT decided: accuracy in machine-precision units for any transcendental evaluation, values on the cuts, pow/exp, the direct Annex G proof for the casin/cacos bodies (no solver verdict).",
+   technique="symbolic execution of src/complex.c + inline complex.h (emitted via LIBA_COMPLEX_C) in the all-fallback and the libm-bound configuration, a_real as z3 Real, libm calls as fresh reals with sign/range/monotonicity/parity contracts; nlsat decides field identities, inverse pairs, constant relations and ISO C Annex G sign/range tables per quadrant, plus one range obligation per arithmetic result of inv/div (exact-real stand-in for IEEE overflow)",
+   text="Partial by design. Decided: field arithmetic incl. all real/imaginary-scalar and in-place forms and the inverse pairs (mul/div by the same number or scalar, inv(inv z), z*inv z); no intermediate result of inv/div leaves the double range for 2^-1000 <= |z| <= 2^1000 (inv) / 2^-500 <= |x|,|z| <= 2^500 (div); relations between the math.h constants; for the configuration with every A_HAVE_C* undefined (never compiled by the test suite): principal-value sign/range tables of csqrt, clog, catan, catanh per open quadrant, casinh/cacosh against the Annex G table of casin/cacos taken as a contract, the real-argument variants, reciprocal families = inv o f, log2/log10 = log / ln b; for the casin/cacos fallback bodies (complex switches off, real ones on): on every path the argument handed to asin/acos/atan/log/log1p equals the defining expression of the principal value (B = |Re z|/A, tan(asin B), A(-1)+sqrt(A^2-1)) and the quadrant fix-up is right; for the libm-bound configuration: argument/result plumbing of 14 wrappers. NOT decided: accuracy in machine-precision units for any transcendental evaluation, values on the cuts, pow/exp, the direct Annex G proof for the casin/cacos bodies (no solver verdict).",
    note=E2NOTE + REALNOTE + " Contracts for libm follow ISO C F.10; the accuracy clause of C10 is outside this check."),
 })
 NOT_YET = {}
